@@ -9,6 +9,7 @@ import (
 	"bytes"
 	"context"
 	"fmt"
+	"io"
 
 	"github.com/paulmach/osm"
 	"github.com/paulmach/osm/osmpbf"
@@ -107,7 +108,7 @@ func filtered(f *pbfgen.File, flags int) (objs []osm.Object, block []int) {
 
 func main() {
 	kit.Main("C09", "fault_enumeration", func(r *kit.Run) {
-		r.Rule("every (file, 8 skip-flag sets, procs, stop position k=0..N): scan k objects, read both offsets, Close, resume two new scanners at data[F:] and data[P:]; " +
+		r.Rule("every (file, 8 skip-flag sets, procs, stop position k=0..N): scan k objects, read both offsets, Close, resume two new scanners at data[F:] and data[P:], and (procs <= 3) a third on one reader over the whole data positioned with Seek(F), whose reported offsets must be relative to F; " +
 			"non-trivial = the stop is not at k=0 and the resumed scan starts at a data block that is not the first file block; distinct = (file,flags,procs,k)")
 		r.Assume("block offsets come from gen/pbfgen's encoder (sum of 4 + header + blob sizes)")
 		fs := files()
@@ -228,6 +229,46 @@ func runCase(r *kit.Run, c ccase) {
 		if d := pbfgen.DiffObjects(res.Objects, want); d != "" {
 			fail("resume-objects/"+off.name, fmt.Sprintf("resume at %s=%d: %s", off.name, off.v, d))
 			return
+		}
+		// the same resume the way a caller with a file does it: one reader over the
+		// whole data, positioned with Seek. Offsets are "relative to where the
+		// reader started", so this scanner reports them relative to off.v, and a
+		// second resume at off.v + reported lands on a block again.
+		if off.name == "F" && c.Procs <= 3 {
+			rs := bytes.NewReader(enc.Data)
+			if _, err := rs.Seek(off.v, io.SeekStart); err != nil {
+				kit.Fatalf("seek: %v", err)
+			}
+			s2 := osmpbf.New(context.Background(), rs, c.Procs)
+			configure(c.Flags)(s2)
+			var got2 []osm.Object
+			bad := ""
+			for s2.Scan() {
+				o := s2.Object()
+				got2 = append(got2, o)
+				k := len(got2) - 1
+				if k < len(want) {
+					// index of want[k] in objs: the objects of want are a suffix of objs
+					j := len(objs) - len(want) + k
+					if f, w := s2.FullyScannedBytes(), enc.DataStarts[blocks[j]]-off.v; f != w && bad == "" {
+						bad = fmt.Sprintf("after resumed object %d FullyScannedBytes=%d, want %d (block at absolute offset %d, reader started at %d)", k, f, w, enc.DataStarts[blocks[j]], off.v)
+					}
+				}
+			}
+			err := s2.Err()
+			s2.Close()
+			if err != nil {
+				fail("resume-seeked-reader/error", fmt.Sprintf("resume on a reader seeked to %d: %v", off.v, err))
+				return
+			}
+			if d := pbfgen.DiffObjects(got2, want); d != "" {
+				fail("resume-seeked-reader/objects", fmt.Sprintf("resume on a reader seeked to %d: %s", off.v, d))
+				return
+			}
+			if bad != "" {
+				fail("resume-seeked-reader/offsets-not-relative-to-start", bad)
+				return
+			}
 		}
 		// prefix before the block + resumed suffix == whole sequence (for F)
 		if off.name == "F" && c.Stop > 0 {
